@@ -362,7 +362,7 @@ fn cmd_run(float: &str) {
         let (spec, rest) = parse_spec(&line);
         let mut assign = HashMap::new();
         if let Some(a) = rest.first() {
-            for kv in a.split(',') {
+            for kv in a.split(';') {
                 if let Some((k, v)) = kv.split_once('=') {
                     assign.insert(k.to_string(), v.parse::<f64>().unwrap());
                 }
